@@ -1,19 +1,11 @@
-"""Property registry: Lean files that carry the obligations, the correspondence script, labels."""
+"""Property registry: one module per property under harness/reg/ (cXX.py defining ENTRY)."""
+import importlib
+import os
+import re
 
-COMMON_ASSUME = [
-    "the theorems are about the executable Lean model; the model is tied to /repo by the extractor (kernel-checked data) and by differential execution (algorithms)",
-    "IEEE-754 binary64 round-to-nearest without overflow/underflow satisfies class IeeeLaws and the standard rounding model",
-]
-
-PROPS = {
-    "C01": {
-        "lean_files": ["Tables/C01.lean", "Props/C01.lean"],
-        "lemma_files": ["Lemmas/Shift.lean", "Lemmas/Bridge.lean", "Lemmas/VS.lean", "Lemmas/Ieee.lean",
-                        "Model/Basic.lean", "Model/Curve.lean"],
-        "script": "props/c01.py",
-        "rule": "cases = (routine, degree, dimension, control net, parameter vector); E: integer nets x dyadic parameters with exact binary64 arithmetic (bitwise equality with the model); T: identity net (= every unit net) and random binary64 nets x parameters in [-1,2] incl. 0, 1 (tolerance 2(3n+3)u * sum|term|); non-trivial = degree >= 1 and net not all zero; distinct by hash of exact inputs",
-        "partial": ["rounding bound of the assembled VS/de Casteljau evaluation: loop bounds proved (Lemmas/Rounding*), final assembly documented constant 2(3n+3)u"],
-        "trusted_base": ["modelled not verified: evaluate_multi_vs / evaluate_multi_de_casteljau / evaluate_multi_barycentric / evaluate_multi in curve_helpers.py and curve.f90; Curve.evaluate(_multi) glue"],
-        "assumptions": COMMON_ASSUME,
-    },
-}
+PROPS = {}
+_d = os.path.join(os.path.dirname(os.path.abspath(__file__)), "reg")
+for _f in sorted(os.listdir(_d)):
+    _m = re.fullmatch(r"(c\d+)\.py", _f)
+    if _m:
+        PROPS[_m.group(1).upper()] = importlib.import_module("reg." + _m.group(1)).ENTRY
